@@ -331,8 +331,15 @@ Fixpoint sug_restart_walk (cf : cfg) (seen : bool) (prev : proj) (steps : list (
 Definition restart_progress (c : case) : bool :=
   match k_quiet c with Some _ => negb (has_raise c) || verdict_at_rest c | None => true end.
 
+(* under LongRunning the suggestion is never marked Succeeded (the algorithm service is not cleaned up) *)
+Definition longrunning_never_succeeded (c : case) : bool :=
+  match c_resume (k_cfg c) with
+  | LongRunning => all_states (fun p => negb (sug_succeeded p)) (initial c) (k_steps c)
+  | _ => true
+  end.
+
 Definition resume_ok (c : case) : bool :=
-  restart_progress c &&
+  restart_progress c && longrunning_never_succeeded c &&
   all_steps (restart_step (k_cfg c)) (initial c) (k_steps c) &&
   sug_restart_walk (k_cfg c) false (initial c) (k_steps c) &&
   rpc_walk None (initial c) (k_steps c)
@@ -340,6 +347,7 @@ Definition resume_ok (c : case) : bool :=
 
 (* everything but the clause that the known finding F18 violates *)
 Definition resume_ok_modulo_f18 (c : case) : bool :=
+  longrunning_never_succeeded c &&
   all_steps (restart_step (k_cfg c)) (initial c) (k_steps c) &&
   sug_restart_walk (k_cfg c) false (initial c) (k_steps c) &&
   rpc_walk None (initial c) (k_steps c)
@@ -347,7 +355,7 @@ Definition resume_ok_modulo_f18 (c : case) : bool :=
 
 (* everything but the clause that the known finding F14 violates *)
 Definition resume_ok_modulo_f14 (c : case) : bool :=
-  restart_progress c &&
+  restart_progress c && longrunning_never_succeeded c &&
   all_steps (restart_step (k_cfg c)) (initial c) (k_steps c) &&
   sug_restart_walk (k_cfg c) false (initial c) (k_steps c) &&
   rpc_walk None (initial c) (k_steps c)
